@@ -33,10 +33,22 @@ const (
 
 var cfNames = []string{"none", "cut-at-byte", "duplicate-answer", "unknown-name", "oversize-prefix", "garbage-message", "premature-answer", "empty-name"}
 
+// answer kinds (what the scripted client reports for a request)
+const (
+	akPass        = iota // the expected response
+	akAssertFail         // a response that differs from the expected one
+	akClientError        // a ClientErrorResult
+	akNeither            // neither response nor error
+)
+
+var akNames = []string{"pass", "assertion-failure", "client-error", "neither"}
+
 type answerPlan struct {
-	DelayMs int  // simulated latency of this answer
-	Never   bool // never answered
-	AsError bool // answer with a ClientErrorResult
+	DelayMs  int  // simulated latency of this answer
+	Never    bool // never answered
+	AsError  bool // answer with a ClientErrorResult
+	Kind     int  // ak* (used when the scenario supplies expected responses)
+	Feedback bool // reference-client feedback attached to the response
 }
 
 type clientScript struct {
@@ -83,6 +95,11 @@ type simClient struct {
 	answersDone int
 	lastOutput  time.Duration
 	serial      int
+
+	// answerFn, if set, builds the answer for a name (scenario specific)
+	answerFn func(name string, serial int) *conformancev1.ClientCompatResponse
+	// onReceive, if set, is called for every request read
+	onReceive func(n int, req *conformancev1.ClientCompatRequest)
 
 	in      io.ReadCloser
 	out     io.WriteCloser
@@ -146,6 +163,11 @@ func frame(payload []byte) []byte {
 func (c *simClient) makeAnswer(name string, asError bool) (*conformancev1.ClientCompatResponse, int) {
 	c.serial++
 	resp := &conformancev1.ClientCompatResponse{TestName: name}
+	if c.answerFn != nil {
+		if r := c.answerFn(name, c.serial); r != nil {
+			return r, c.serial
+		}
+	}
 	if asError {
 		resp.Result = &conformancev1.ClientCompatResponse_Error{Error: &conformancev1.ClientErrorResult{Message: fmt.Sprintf("scripted-error-%d", c.serial)}}
 	} else {
@@ -314,6 +336,9 @@ func (c *simClient) impl(ctx context.Context, _ []string, in io.ReadCloser, out,
 		c.received = append(c.received, req)
 		c.receivedAt = append(c.receivedAt, c.sim.Steps())
 		c.sim.MixLog("req:" + req.TestName)
+		if c.onReceive != nil {
+			c.onReceive(len(c.received), req)
+		}
 		plan := c.planFor(idx)
 		if plan.Never {
 			c.faultFired["never-answered"]++
